@@ -75,6 +75,9 @@ def generate(seed, tier):
             # softs inside a dynamic block: they take part (at the position of the reference)
             # only in calls whose inline block references it
             c["blocks"].append({"n": "dz", "dyn": True, "stmts": mixed_stmts(g, rng, fields, 1, 2, nest=0)})
+        toggles = rng.random() < 0.35
+        if toggles:
+            c["cb"] = True       # pre/post_randomize exist (they may switch blocks on / off)
         prog = {"enums": [], "classes": [progs.strip(c)], "top": "K0"}
         if scen.rand_domain_size(prog, "K0") <= 512:
             break
@@ -89,8 +92,19 @@ def generate(seed, tier):
     for _ in range(orng.randint(6, 14 if tier == "quick" else 30)):
         p = orng.randrange(n_parties)
         r = orng.random()
-        if r < 0.4:
-            ops.append({"op": "randomize", "p": p})
+        cblocks = [b["n"] for b in prog["classes"][0]["blocks"] if not b.get("dyn")]
+        if toggles and r < 0.12:
+            # constraint_mode between calls: a switched-off block contributes neither hard nor soft
+            ops.append({"op": "cmode", "p": p, "path": [], "block": orng.choice(cblocks),
+                        "on": orng.random() < 0.5})
+        elif r < 0.4:
+            op_ = {"op": "randomize", "p": p}
+            if toggles and orng.random() < 0.4:
+                # ... and from inside the callbacks of the call itself
+                op_["pre_cmode"] = [orng.choice(cblocks), orng.random() < 0.7]
+                if orng.random() < 0.6:
+                    op_["post_cmode"] = [op_["pre_cmode"][0], False]
+            ops.append(op_)
         elif r < 0.5:
             # a call that fails (contradictory hard inline block) - per-call soft state must
             # not survive it
@@ -103,12 +117,33 @@ def generate(seed, tier):
             inl = progs.strip(mixed_stmts(go, orng, fields, 1, 2, nest=1))
             if has_dyn and orng.random() < 0.6:
                 inl.insert(orng.randint(0, len(inl)), progs.EXPR({"t": "dynref", "n": "dz", "p": []}))
-            ops.append({"op": "rw", "p": p, "inline": inl})
+            op_ = {"op": "rw", "p": p, "inline": inl}
+            if toggles and orng.random() < 0.4:
+                op_["pre_cmode"] = [orng.choice(cblocks), orng.random() < 0.7]
+                if orng.random() < 0.6:
+                    op_["post_cmode"] = [op_["pre_cmode"][0], False]
+            ops.append(op_)
         elif nr:
             f = orng.choice(nr)
             ops.append({"op": "assign", "p": p, "path": [f["n"]], "v": go.in_range_value(f)})
         else:
             ops.append({"op": "seed", "p": p, "k": st.lib.randint(0, 1 << 30)})
+    if toggles:
+        # episode: a block with a soft is only ever on *during* calls (pre_randomize switches it
+        # on, post_randomize off again) while the inline block states the opposite soft: whatever
+        # per-call bookkeeping the block carries must start afresh in every one of these calls
+        sb = [(b["n"], s_["e"]) for b in prog["classes"][0]["blocks"] if not b.get("dyn")
+              for s_ in b["stmts"] if s_["t"] == "soft"]
+        if sb and orng.random() < 0.7:
+            bn, se = orng.choice(sb)
+            p = orng.randrange(n_parties)
+            ep = [{"op": "cmode", "p": p, "path": [], "block": bn, "on": True},
+                  {"op": "randomize", "p": p, "post_cmode": [bn, False]}]
+            for _ in range(orng.randint(3, 6)):
+                ep.append({"op": "rw", "p": p, "inline": [{"t": "soft", "e": {"t": "not", "e": se}}],
+                           "pre_cmode": [bn, True], "post_cmode": [bn, False]})
+            at = orng.randint(2 * n_parties, len(ops))
+            ops[at:at] = ep
     return {"prop": ID, "seed": seed, "prog": prog, "ops": ops}
 
 
@@ -190,6 +225,15 @@ def execute(rec):
     cache = {}
     calls_on = {}
     nontrivial = False
+    cur = {"op": None}
+
+    def handler(obj, phase, cname):
+        op_ = cur["op"]
+        tg = op_ and op_.get("pre_cmode" if phase == "pre" else "post_cmode")
+        if tg:
+            getattr(obj, tg[0]).constraint_mode(bool(tg[1]))
+            stats["cb_toggles"] = stats.get("cb_toggles", 0) + 1
+    w.cb_handler = handler
     for oi, op in enumerate(rec["ops"]):
         if "p" in op and op["p"] >= len(w.parties):
             continue
@@ -203,9 +247,22 @@ def execute(rec):
         before = w.tree(p)
         rpaths = w.rand_paths(p, before)
         inline = op.get("inline") or []
+        # blocks in force for this call: the modes left by earlier toggles, then pre_randomize's
+        eff = dict(pt.modes.get("", {}))
+        if op.get("pre_cmode"):
+            eff[op["pre_cmode"][0]] = bool(op["pre_cmode"][1])
         key = kernel.digest([before and {k: v for k, v in before.items()
-                                         if [k] not in rpaths}, inline])
-        out = w.apply(op)
+                                         if [k] not in rpaths}, inline, sorted(eff.items())])
+        cur["op"] = op
+        try:
+            out = w.apply(op)
+        finally:
+            cur["op"] = None
+        for tg in (op.get("pre_cmode"), op.get("post_cmode")):
+            # (the callbacks ran unless the call was aborted before them; a failed solve never
+            # reaches post_randomize)
+            if tg and (tg is op.get("pre_cmode") or out["st"] == "ok"):
+                pt.modes.setdefault("", {})[tg[0]] = bool(tg[1])
         calls_on[p] = calls_on.get(p, 0) + 1
         if calls_on[p] > 1:
             stats["repeat_calls"] += 1
@@ -213,7 +270,7 @@ def execute(rec):
         obs.append((oi, kind, out["st"], after))
         try:
             if key not in cache:
-                cache[key] = analyse(P, pt.cname, before, rpaths, inline)
+                cache[key] = analyse(P, pt.cname, before, rpaths, inline, {"": eff})
             an = cache[key]
         except refsem.RefError:
             stats["ambiguous_skipped"] += 1
@@ -299,12 +356,14 @@ def expand_dyn(P, cname, inline):
     return out
 
 
-def analyse(P, cname, tree, rpaths, inline):
+def analyse(P, cname, tree, rpaths, inline, modes=None):
     """hard-feasible set, softs, per-soft truth tables (sets of points), chains"""
     inline = expand_dyn(P, cname, inline)
     softs = []
     chains = []
     for b in P.blocks(cname):
+        if (modes or {}).get("", {}).get(b["n"], True) is False:
+            continue
         start = len(softs)
         collect_softs(b["stmts"], [], softs, b["n"])
         chains.append(list(range(start, len(softs))))
@@ -324,7 +383,7 @@ def analyse(P, cname, tree, rpaths, inline):
     for combo in itertools.product(*doms):
         for q, v in zip(rpaths, combo):
             refsem.set_path(t, q, v)
-        if refsem.check_tree(P, cname, t, None, None, inline) is not None:
+        if refsem.check_tree(P, cname, t, modes, None, inline) is not None:
             continue
         hard.add(combo)
         for i, s in enumerate(softs):
